@@ -25,6 +25,8 @@ type State struct {
 	parked  []*parkedG     // goroutines blocked under the canonical schedule (sched.go)
 	gseq    int            // goroutines spawned so far
 	gdepth  int            // > 0 while a goroutine other than main is running
+	gcur    int            // id of the goroutine that is running (0: main)
+	vnow    int64          // virtual time of the timer wheel (ns): the instant of the last sleeper woken
 	socks   []ObjID        // sockets opened so far (sockets.go)
 	choice  []int          // program-level choices made with nondetEnum (states with different choices never merge)
 	epochs  []epochRec     // times whose epoch second has been named (Time.UnixMilli)
@@ -65,6 +67,8 @@ func (s *State) fork() *State {
 		parked:  s.parked[:len(s.parked):len(s.parked)],
 		gseq:    s.gseq,
 		gdepth:  s.gdepth,
+		gcur:    s.gcur,
+		vnow:    s.vnow,
 		socks:   s.socks[:len(s.socks):len(s.socks)],
 		choice:  s.choice[:len(s.choice):len(s.choice)],
 		ranges:  s.ranges,
@@ -526,6 +530,9 @@ func (e *Engine) mergeStates(a, b *State, extra func(g *Term) bool) (*State, boo
 	if (a.clock == nil) != (b.clock == nil) {
 		return nil, false
 	}
+	if a.vnow != b.vnow || a.gcur != b.gcur {
+		return nil, false
+	}
 	if a.gseq != b.gseq || a.gdepth != b.gdepth || len(a.socks) != len(b.socks) || !parkedEqual(a.parked, b.parked) {
 		return nil, false
 	}
@@ -603,6 +610,8 @@ func (e *Engine) mergeStates(a, b *State, extra func(g *Term) bool) (*State, boo
 		parked:  a.parked,
 		gseq:    a.gseq,
 		gdepth:  a.gdepth,
+		gcur:    a.gcur,
+		vnow:    a.vnow,
 		socks:   a.socks,
 		choice:  a.choice,
 		net:     a.net,
